@@ -225,6 +225,12 @@ class C14(Prop):
                 out.append(val_case('return "%s" !~ /%s/;' % (subj, pat), not want, "regexp-values"))
             out.append(val_case('return "%s" ~= /(?:%s)/i;' % (w.upper(), w), True, "regexp-values"))
             out.append(val_case('return "%s" ~= /^(?:%s)$/m;' % ("k\n" + w, w), True, "regexp-values"))
+        # integer literals just beyond the largest integer denote nothing: Prepare refuses them (19 digits and more)
+        for t in ["9223372036854775808", "9223372036854775809", "9999999999999999999", "18446744073709551615", "18446744073709551616", "09223372036854775808", "92233720368547758070"]:
+            out.append(val_case("return %s;" % t, NotImplemented, "literal-values"))
+            out.append(val_case("if (%s > 0) { return 1; } return 2;" % t, NotImplemented, "literal-values"))
+        for t in ["9223372036854775806", "1000000000000000000", "999999999999999999", "9223372036854775807"]:
+            out.append(val_case("return %s;" % t, int(t), "literal-values"))
         for t in ["0x10", "0b11", "0o17", "1_000", "1e3", "0xff", "12abc"]:
             out.append(val_case("return %s;" % t, NotImplemented))
         # ranges: 1..3 is INT DOTDOT INT
